@@ -26,6 +26,33 @@ class Ctx:
     def __init__(self, prog):
         self.prog = prog
         self.sum_cache = {}
+        # {body id: blocks not to be considered} - used to follow one arm of a match on the encoder's mode
+        self.excluded = {}
+
+    def skip(self, body, bb):
+        return bb in self.excluded.get(body.id, ())
+
+    def live_closures(self, fn):
+        """fn and its closures, without the closures created in excluded blocks"""
+        out = [fn]
+        for clo in self.prog.closures_of(fn):
+            par = self.prog.by_target[clo.target].get(clo.parent["direct"]) if clo.parent else None
+            dead = False
+            x = clo
+            # walk up: a closure is dead when it (or an enclosing closure) is created in an excluded block
+            while x is not None and x.kind == "closure":
+                par = self.prog.by_target[x.target].get(x.parent["direct"]) if x.parent else None
+                if par is None:
+                    break
+                for s in par.sites():
+                    n = s.node
+                    if s.si is not None and n["k"] == "assign" and n["rv"]["k"] == "aggregate" and n["rv"]["agg"].get("kind") == "closure" and n["rv"]["agg"].get("path") == x.path:
+                        if self.skip(par, s.bb):
+                            dead = True
+                x = par
+            if not dead:
+                out.append(clo)
+        return out
 
 
 # ------------------------------------------------------------------------------------------
@@ -56,6 +83,13 @@ def node_of_label(cx, body, op, depth=0):
                 res.add(_attack_node(cx, body, o.site.node["args"][0], depth + 1))
             elif d in ("aa::arguments::ArgumentSet::get_argument_by_id",):
                 res.add(("byid", _id_desc(cx, body, o.site.node["args"][1])))
+            elif d == "core::iter::traits::iterator::Iterator::next":
+                # `for arg in af.argument_set().iter()`
+                _, calls, _ = data_deps(body, o.site.node["args"][0])
+                if any(callee_matches(callee_of(c), r"ArgumentSet::iter$") for c in calls):
+                    res.add(("each-arg",))
+                else:
+                    res.add(("unk",))
             else:
                 res.add(("unk",))
         elif o.kind == "upvar":
@@ -474,21 +508,49 @@ def _node_s(n):
 def local_clause_sites(cx, fn):
     """add_clause sites of fn and of its closures, as templates over fn's parameters"""
     out = []
-    for x in cx.prog.with_closures(fn):
+    for x in cx.live_closures(fn):
         for s in x.calls():
+            if cx.skip(x, s.bb):
+                continue
             if not callee_matches(callee_of(s), r"sat_solver::SatSolver::add_clause$"):
                 continue
             lits = clause_elements(cx, x, s.node["args"][1])
             per = "arg"
-            if x is not fn:
+            lt = _loop_iter_target(cx, x, s.bb)
+            if lt is not None:
+                per = ("attacker", lt) if lt not in (("each-arg",), ("unk",)) else ("arg" if lt == ("each-arg",) else "loop")
+            elif x is not fn:
                 tgt = _closure_iter_target(cx, x)
                 per = ("attacker", tgt) if tgt != ("each-arg",) else "arg"
                 if tgt == ("unk",):
                     per = "loop"
-            elif x.in_loop(s.bb):
-                per = "loop"
             out.append(ClauseT(lits, per, _guards(cx, x, s), s, [fn.path]))
     return out
+
+
+def _loop_iter_target(cx, body, bb):
+    """for a block inside a `for` loop of `body`: the node X when the innermost loop iterates iter_attacks_to(X),
+    ('each-arg',) for ArgumentSet::iter, ('unk',) for another loop; None when bb is in no loop"""
+    heads = body.in_loop(bb)
+    if not heads:
+        return None
+    loops = dict(body.loops())
+    # innermost = the smallest loop containing bb
+    head = min(heads, key=lambda h: len(loops[h]))
+    blocks = loops[head]
+    for s in body.calls():
+        if s.bb in blocks and callee_decl(callee_of(s)) == "core::iter::traits::iterator::Iterator::next":
+            # the loop driven by this next(): its head is this loop's
+            if min(body.in_loop(s.bb), key=lambda h: len(loops[h])) != head:
+                continue
+            _, calls, _ = data_deps(body, s.node["args"][0])
+            for c in calls:
+                if callee_matches(callee_of(c), r"AAFramework::iter_attacks_to$"):
+                    return node_of_label(cx, body, c.node["args"][1])
+            for c in calls:
+                if callee_matches(callee_of(c), r"ArgumentSet::iter$"):
+                    return ("each-arg",)
+    return ("unk",)
 
 
 def _subst_node(n, lab_map):
@@ -540,8 +602,10 @@ def templates(cx, fn, lab_map=None, var_map=None, depth=0, chain=()):
         guards = [tuple(_subst_node(g, lab_map) if isinstance(g, tuple) else g for g in gg) for gg in t.guards]
         out.append(ClauseT(lits, per, guards, t.site, list(chain) + [fn.path]))
     # callees
-    for x in cx.prog.with_closures(fn):
+    for x in cx.live_closures(fn):
         for s in x.calls():
+            if cx.skip(x, s.bb):
+                continue
             c = callee_of(s)
             tgt = cx.prog.body_for_callee(c, x) if c else None
             if tgt is None or tgt.kind == "closure" or tgt is fn:
@@ -568,12 +632,13 @@ def templates(cx, fn, lab_map=None, var_map=None, depth=0, chain=()):
             per_ctx = None
             sub = templates(cx, tgt, lm, vm, depth + 1, tuple(chain) + (fn.path,))
             # a callee invoked inside an attacker loop runs once per attacker
-            if x is not fn:
+            tnode = _loop_iter_target(cx, x, s.bb)
+            if tnode is None and x is not fn:
                 tnode = _closure_iter_target(cx, x)
-                if tnode not in (("each-arg",), ("unk",)):
-                    for t in sub:
-                        if t.per == "arg":
-                            t.per = ("attacker", _subst_node(tnode, lab_map))
+            if tnode is not None and tnode not in (("each-arg",), ("unk",)):
+                for t in sub:
+                    if t.per == "arg":
+                        t.per = ("attacker", _subst_node(tnode, lab_map))
             out += sub
     return out
 
